@@ -12,7 +12,8 @@ use camharness::*;
 use cameleon_genapi::builder::{CacheStoreBuilder, GenApiBuilder};
 use cameleon_genapi::elem_type::{AddressKind, BitMask, ImmOrPNode, NamedValue, ValueKind};
 use cameleon_genapi::formula::{self, Expr};
-use cameleon_genapi::interface::{IEnumeration, INode};
+use cameleon_genapi::interface::{IBoolean, IEnumeration, IFloat, IInteger, INode, IString};
+use cameleon_genapi::{CacheStore, Device, ValueCtxt};
 use cameleon_genapi::store::{
     DefaultCacheStore, DefaultNodeStore, DefaultValueStore, NodeData, NodeId, NodeStore, ValueData,
     ValueId, ValueStore,
@@ -288,10 +289,58 @@ impl CacheStoreBuilder for RecordingCache {
     }
 }
 
+impl CacheStore for RecordingCache {
+    fn cache(&mut self, _: NodeId, _: i64, _: i64, _: &[u8]) {}
+    fn get_cache(&self, _: NodeId, _: i64, _: i64) -> Option<&[u8]> {
+        None
+    }
+    fn invalidate_by(&mut self, _: NodeId) {}
+    fn invalidate_of(&mut self, _: NodeId) {}
+    fn clear(&mut self) {}
+}
+
+/// no device memory: the behavioural step only touches value-store immediates
+struct NoDevice;
+impl Device for NoDevice {
+    fn read_mem(&mut self, _: i64, _: &mut [u8]) -> Result<(), Box<dyn std::error::Error + Send + Sync>> {
+        Err("no memory".into())
+    }
+    fn write_mem(&mut self, _: i64, _: &[u8]) -> Result<(), Box<dyn std::error::Error + Send + Sync>> {
+        Err("no memory".into())
+    }
+}
+
 struct D<'a> {
     ns: &'a DefaultNodeStore,
     vs: &'a DefaultValueStore,
     fpool: &'a [(String, Expr)],
+    /// raw value-store ids of the immediates, in dump order
+    imm: std::cell::RefCell<Vec<u32>>,
+}
+
+fn vid_num(v: ValueId) -> u32 {
+    let s = format!("{:?}", v);
+    s.chars().filter(|c| c.is_ascii_digit()).collect::<String>().parse().unwrap_or(u32::MAX)
+}
+
+fn cell_text(v: &ValueData) -> String {
+    match v {
+        ValueData::Integer(i) => format!("i{i}"),
+        ValueData::Float(f) => format!("f{}", fbits(*f)),
+        ValueData::Str(s) => format!("s{}", ss(s)),
+        ValueData::Boolean(b) => format!("b{}", bs(*b)),
+    }
+}
+
+/// every cell of the value store, in id order (ids are dense: 0..n)
+fn all_cells(vs: &DefaultValueStore) -> Vec<String> {
+    let mut out = vec![];
+    let mut i = 0u32;
+    while let Some(v) = vs.value_opt(ValueId::from_u32(i)) {
+        out.push(cell_text(v));
+        i += 1;
+    }
+    out
 }
 
 fn bs(b: bool) -> &'static str {
@@ -325,6 +374,8 @@ impl D<'_> {
         format!("[{}]", l.iter().map(|i| self.r(*i)).collect::<Vec<_>>().join(","))
     }
     fn val<T: Into<ValueId>>(&self, id: T) -> String {
+        let id: ValueId = id.into();
+        self.imm.borrow_mut().push(vid_num(id));
         match self.vs.value_opt(id) {
             None => "!".into(),
             Some(ValueData::Integer(i)) => format!("i{i}"),
@@ -753,6 +804,10 @@ struct Out {
     looks: Vec<String>,
     /// LOOK kind of every probed (declared) name — not part of the answer
     probes: Vec<String>,
+    /// findings of the behavioural step on the value-store immediates (sig, what)
+    beh: Vec<(Value, String)>,
+    /// (immediates written through the node API, through the store, skipped)
+    beh_counts: (u64, u64, u64),
 }
 
 enum Res {
@@ -773,6 +828,161 @@ impl Res {
     }
 }
 
+/// one declared immediate living in the value store
+struct Imm {
+    node: NodeId,
+    label: String,
+    vid: ValueId,
+    /// the node's own `<Value>` (written through the node API)
+    main: bool,
+}
+
+fn collect_imms(ns: &DefaultNodeStore) -> Vec<Imm> {
+    fn ip<T: Into<ValueId> + Copy>(out: &mut Vec<Imm>, node: NodeId, label: &str, v: ImmOrPNode<T>, main: bool) {
+        if let ImmOrPNode::Imm(id) = v {
+            out.push(Imm { node, label: label.to_string(), vid: id.into(), main });
+        }
+    }
+    fn vk<T: Into<ValueId> + Copy>(out: &mut Vec<Imm>, node: NodeId, v: &ValueKind<T>) {
+        match v {
+            ValueKind::Value(id) => out.push(Imm { node, label: "Value".into(), vid: (*id).into(), main: true }),
+            ValueKind::PValue(_) => {}
+            ValueKind::PIndex(p) => {
+                for (k, vi) in p.value_indexed().iter().enumerate() {
+                    ip(out, node, &format!("ValueIndexed[{k}]"), vi.indexed(), false);
+                }
+                ip(out, node, "ValueDefault", p.value_default(), false);
+            }
+        }
+    }
+    let mut out = vec![];
+    ns.visit_nodes(|nd| match nd {
+        NodeData::Integer(n) => {
+            let id = n.node_base().id();
+            vk(&mut out, id, n.value_kind());
+            ip(&mut out, id, "Min", n.min_elem(), false);
+            ip(&mut out, id, "Max", n.max_elem(), false);
+        }
+        NodeData::Float(n) => {
+            let id = n.node_base().id();
+            vk(&mut out, id, n.value_kind());
+            ip(&mut out, id, "Min", n.min_elem(), false);
+            ip(&mut out, id, "Max", n.max_elem(), false);
+        }
+        NodeData::Boolean(n) => ip(&mut out, n.node_base().id(), "Value", n.value_elem(), false),
+        NodeData::Command(n) => {
+            let id = n.node_base().id();
+            ip(&mut out, id, "Value", n.value_elem(), false);
+            ip(&mut out, id, "CommandValue", n.command_value_elem(), false);
+        }
+        NodeData::Enumeration(n) => ip(&mut out, n.node_base().id(), "Value", n.value_elem(), false),
+        NodeData::String(n) => ip(&mut out, n.node_base().id(), "Value", n.value_elem(), true),
+        _ => {}
+    });
+    out
+}
+
+/// Behavioural step on the implementation: every declared immediate has a cell of its own.
+/// Each immediate (at most 24 per document) gets a fresh value - through the node API
+/// (`IString/IInteger/IFloat::set_value`) for a node's own `<Value>`, else through
+/// `ValueStore::update` - and ALL cells are dumped again: exactly that one cell must change.
+fn behavioural_step(
+    ns: &DefaultNodeStore,
+    cx: &mut ValueCtxt<DefaultValueStore, RecordingCache>,
+) -> (Vec<(Value, String)>, (u64, u64, u64)) {
+    let mut finds: Vec<(Value, String)> = vec![];
+    let mut counts = (0u64, 0u64, 0u64);
+    let imms = collect_imms(ns);
+    let name = |id: NodeId| ns.name_by_id(id).unwrap_or("?").to_string();
+    let ty = |cx: &ValueCtxt<DefaultValueStore, RecordingCache>, v: ValueId| match cx.value_store.value_opt(v) {
+        Some(ValueData::Integer(_)) => "Integer",
+        Some(ValueData::Float(_)) => "Float",
+        Some(ValueData::Str(_)) => "Str",
+        Some(ValueData::Boolean(_)) => "Boolean",
+        None => "none",
+    };
+    // statically: no two declared immediates share a cell
+    for (i, a) in imms.iter().enumerate() {
+        for b in &imms[..i] {
+            if a.vid == b.vid {
+                finds.push((
+                    json!({"kind": "immediate-cells", "what": "shared-cell", "value_type": ty(cx, a.vid)}),
+                    format!("{}.{} and {}.{} share value-store cell {:?}", name(b.node), b.label, name(a.node), a.label, a.vid),
+                ));
+            }
+        }
+    }
+    let step = (imms.len() / 24).max(1);
+    for (k, im) in imms.iter().enumerate() {
+        if k % step != 0 {
+            counts.2 += 1;
+            continue;
+        }
+        let before = all_cells(&cx.value_store);
+        let t = ty(cx, im.vid);
+        let new = match cx.value_store.value_opt(im.vid) {
+            Some(ValueData::Integer(i)) => ValueData::Integer(i.wrapping_add(1001)),
+            Some(ValueData::Float(f)) => {
+                let g = if f.is_finite() && (*f + 1.5).to_bits() != f.to_bits() && (*f + 1.5).is_finite() { *f + 1.5 } else { 42.25 };
+                ValueData::Float(if g.to_bits() == f.to_bits() { 43.5 } else { g })
+            }
+            Some(ValueData::Str(s)) => ValueData::Str(format!("{s}#w")),
+            Some(ValueData::Boolean(b)) => ValueData::Boolean(!b),
+            None => continue,
+        };
+        let mut via = "store";
+        if im.main {
+            let ok = catch(|| {
+                let mut dev = NoDevice;
+                match (ns.node_opt(im.node), &new) {
+                    (Some(NodeData::String(n)), ValueData::Str(s)) => n.set_value(s.clone(), &mut dev, ns, &mut *cx).is_ok(),
+                    (Some(NodeData::Integer(n)), ValueData::Integer(i)) => n.set_value(*i, &mut dev, ns, &mut *cx).is_ok(),
+                    (Some(NodeData::Float(n)), ValueData::Float(f)) => n.set_value(*f, &mut dev, ns, &mut *cx).is_ok(),
+                    _ => false,
+                }
+            })
+            .unwrap_or(false);
+            if ok {
+                via = "node-api";
+            }
+        }
+        if via == "store" {
+            let _ = cx.value_store.update(im.vid, new.clone());
+            counts.1 += 1;
+        } else {
+            counts.0 += 1;
+        }
+        let after = all_cells(&cx.value_store);
+        let target = vid_num(im.vid) as usize;
+        let want = cell_text(&new);
+        let changed: Vec<usize> = (0..before.len().max(after.len())).filter(|i| before.get(*i) != after.get(*i)).collect();
+        if after.get(target) != Some(&want) {
+            finds.push((
+                json!({"kind": "immediate-cells", "what": "write-lost", "value_type": t, "via": via}),
+                format!("{}.{}: cell {target} is {:?} after writing {want}", name(im.node), im.label, after.get(target)),
+            ));
+        }
+        if changed.iter().any(|i| *i != target) {
+            finds.push((
+                json!({"kind": "immediate-cells", "what": "write-changed-other-cell", "value_type": t, "via": via}),
+                format!("writing {}.{} (cell {target}) also changed cells {:?}", name(im.node), im.label, changed),
+            ));
+        }
+        // what every OTHER immediate reports must be what it reported before
+        for o in &imms {
+            let oi = vid_num(o.vid) as usize;
+            if (o.node != im.node || o.label != im.label) && before.get(oi) != after.get(oi) {
+                finds.push((
+                    json!({"kind": "immediate-cells", "what": "other-immediate-changed", "value_type": t, "via": via}),
+                    format!("writing {}.{} changed what {}.{} reports: {:?} -> {:?}", name(im.node), im.label, name(o.node), o.label, before.get(oi), after.get(oi)),
+                ));
+                break;
+            }
+        }
+    }
+    (finds, counts)
+}
+
 fn run_impl(xml: &str, looks: &[String], probes: &[String], fpool: &[(String, Expr)]) -> Res {
     let xml_s = xml.to_string();
     let built = catch(|| {
@@ -780,13 +990,13 @@ fn run_impl(xml: &str, looks: &[String], probes: &[String], fpool: &[(String, Ex
             .with_cache_store(RecordingCache::default())
             .build(&xml_s)
     });
-    let (rd, ns, cx) = match built {
+    let (rd, ns, mut cx) = match built {
         Err(()) => return Res::Panic,
         Ok(Err(_)) => return Res::Err,
         Ok(Ok(t)) => t,
     };
     let dumped = catch(|| {
-        let d = D { ns: &ns, vs: &cx.value_store, fpool };
+        let d = D { ns: &ns, vs: &cx.value_store, fpool, imm: std::cell::RefCell::new(vec![]) };
         let mut nodes = vec![];
         ns.visit_nodes(|nd| {
             let (n, k, t) = d.node(nd);
@@ -801,18 +1011,31 @@ fn run_impl(xml: &str, looks: &[String], probes: &[String], fpool: &[(String, Ex
         let lk: Vec<String> = looks.iter().map(|l| format!("{}:{}", ss(l), d.look_kind(l))).collect();
         let pr: Vec<String> = probes.iter().map(|l| d.look_kind(l)).collect();
         let rd_s = dump_rd(&rd);
+        // the whole value store (one cell per declared immediate, in document order) and the ids
+        // the immediates of the dump above refer to
         let answer = format!(
-            "ok rd{{{}}} nodes[{}] inval[{}] look[{}]",
+            "ok rd{{{}}} nodes[{}] inval[{}] look[{}] store[{}] imm[{}]",
             rd_s,
             nodes.iter().map(|n| n.2.as_str()).collect::<Vec<_>>().join("|"),
             inval.iter().map(|(a, b)| format!("@{}>@{}", hx(a), hx(b))).collect::<Vec<_>>().join(","),
-            lk.join(",")
+            lk.join(","),
+            all_cells(&cx.value_store).join(","),
+            d.imm.borrow().iter().map(|i| i.to_string()).collect::<Vec<_>>().join(",")
         );
-        Out { answer, rd: rd_s, nodes, inval, looks: lk, probes: pr }
+        Out { answer, rd: rd_s, nodes, inval, looks: lk, probes: pr, beh: vec![], beh_counts: (0, 0, 0) }
     });
     match dumped {
         Err(()) => Res::DumpPanic,
-        Ok(o) => Res::Ok(o),
+        Ok(mut o) => {
+            // behavioural step AFTER the static dump
+            if let Ok((finds, counts)) = catch(|| behavioural_step(&ns, &mut cx)) {
+                o.beh = finds;
+                o.beh_counts = counts;
+            } else {
+                o.beh = vec![(json!({"kind": "immediate-cells", "what": "panic"}), "behavioural step panicked".into())];
+            }
+            Res::Ok(o)
+        }
     }
 }
 
@@ -1768,9 +1991,61 @@ impl<'a> Gen<'a> {
     }
 
     /// element base.  `nd` = (Visibility, IsDeprecated, ImposedAccessMode) must be non-default if declared.
+    /// free-form `<Extension>`: text, or vendor markup - nested elements (vendor-prefixed with
+    /// their own namespace, or unprefixed) whose LOCAL names are arbitrary and often collide
+    /// with schema element names; nothing inside an Extension declares a property of the node.
+    fn gen_extension(&mut self) -> El {
+        if self.rng.bool() {
+            return self.e_str("Extension", "");
+        }
+        self.rep.count("extension:nested-elements");
+        const COLLIDE: [&str; 14] = [
+            "Visibility", "IsDeprecated", "ImposedAccessMode", "Streamable", "AccessMode", "Cachable", "pInvalidator",
+            "Value", "ToolTip", "StructEntry", "EnumEntry", "Bit", "pIsLocked", "Extension",
+        ];
+        const VALUES: [&str; 8] = ["Collapsed", "No", "RW", "Never", "Guru", "NoCache", "Yes", "WO"];
+        let prefixed = self.rng.bool();
+        let mut leaf = |g: &mut Self| -> X {
+            let local = if g.rng.chance(3, 4) { *g.rng.pick(&COLLIDE) } else { *g.rng.pick(&["GuiHints", "Hint", "Order"]) };
+            if COLLIDE[..6].contains(&local) {
+                g.rep.count("extension:nested-name-of-a-defaultable-property");
+            }
+            let tag = if prefixed { format!("vnd:{local}") } else { local.to_string() };
+            let mut attrs = vec![];
+            if g.rng.chance(1, 4) {
+                attrs.push(("Name".to_string(), g.lit_attr_str()));
+            }
+            let kids = if g.rng.chance(1, 6) { vec![] } else { vec![X::T(g.rng.pick(&VALUES).to_string())] };
+            xe(&tag, attrs, kids)
+        };
+        let mut kids: Vec<X> = vec![];
+        let n = 1 + self.rng.below(4);
+        if self.rng.bool() {
+            // one wrapper level, as GUI-hint blocks usually have
+            let inner: Vec<X> = (0..n).map(|_| leaf(self)).collect();
+            let inner = self.noise_wrap(inner);
+            let wrap = if prefixed { "vnd:GuiHints" } else { "GuiHints" };
+            kids.push(xe(wrap, vec![], inner));
+        } else {
+            for _ in 0..n {
+                let l = leaf(self);
+                kids.push(l);
+            }
+        }
+        if self.rng.chance(1, 3) {
+            kids.insert(0, X::T("hint ".into()));
+        }
+        let kids = self.noise_wrap(kids);
+        let mut attrs = vec![];
+        if prefixed {
+            attrs.push(("xmlns:vnd".to_string(), "urn:vendor:gui-hints".to_string()));
+        }
+        El::new(xe("Extension", attrs, kids), "", String::new())
+    }
+
     fn gen_base(&mut self, els: &mut Vec<El>, nd: (bool, bool, bool)) {
         if self.opt() {
-            let e = self.e_str("Extension", "");
+            let e = self.gen_extension();
             els.push(e);
         }
         if self.opt() {
@@ -2283,7 +2558,15 @@ impl<'a> Gen<'a> {
                 self.gen_streamable(&mut els, "st");
                 if self.rng.bool() {
                     self.rep.count("imm-or-pnode:imm");
-                    let mut e = self.e_str("Value", "val");
+                    // string constants repeat in real descriptions ("N/A", empty defaults ...):
+                    // every node still owns its declared immediate
+                    let mut e = if self.rng.chance(3, 5) {
+                        self.rep.count("string-value:common-constant");
+                        let t = *self.rng.pick(&["N/A", "", "default", "0"]);
+                        El::new(self.mk("Value", t), "val", ss(t))
+                    } else {
+                        self.e_str("Value", "val")
+                    };
                     e.val = format!("I(s{})", e.val);
                     els.push(e);
                 } else {
@@ -2700,6 +2983,10 @@ fn add_meta(sig: &mut Value, meta: Option<&Meta>, field: &str) {
     }
 }
 
+fn dist_add(rep: &mut Report, key: &str, n: u64) {
+    *rep.dist.entry(key.into()).or_insert(0) += n;
+}
+
 /// (a) every declared node is retrievable with exactly the declared properties / schema defaults.
 fn oracle_retrievable(rep: &mut Report, case: &Case, res: &Res) {
     let mut seen: HashSet<String> = HashSet::new();
@@ -2722,6 +3009,12 @@ fn oracle_retrievable(rep: &mut Report, case: &Case, res: &Res) {
     if out.rd != case.exp_rd {
         emit(rep, json!({"kind": "retrievable", "what": "rd", "class": case.cls}), format!("RegisterDescription: got {} expected {}", out.rd, case.exp_rd));
     }
+    for (sig, what) in &out.beh {
+        emit(rep, sig.clone(), what.clone());
+    }
+    dist_add(rep, "immediates:written-through-node-api", out.beh_counts.0);
+    dist_add(rep, "immediates:written-through-store-update", out.beh_counts.1);
+    dist_add(rep, "immediates:not-written(over 24 per document)", out.beh_counts.2);
     let map: BTreeMap<&str, (&str, &str)> = out.nodes.iter().map(|n| (n.0.as_str(), (n.1.as_str(), n.2.as_str()))).collect();
     for (i, e) in case.exps.iter().enumerate() {
         if out.probes.get(i).map(|s| s.as_str()) != Some(e.kind.as_str()) {
@@ -3254,6 +3547,66 @@ fn fixed_cases() -> Vec<(&'static str, X)> {
         ("empty-string-value", rd(vec![n("String", "S", vec![t("Value", "")])])),
         ("no-nodes", rd(vec![])),
         (
+            // equal string (and integer / float) immediates: every node owns its cell
+            "equal-immediates",
+            rd(vec![
+                xe(
+                    "Group",
+                    vec![("Comment".to_string(), "user strings".to_string())],
+                    vec![
+                        n("String", "A", vec![t("Value", "N/A")]),
+                        n("Integer", "N", vec![t("Value", "3")]),
+                        n("String", "B", vec![t("ToolTip", "free text"), t("Value", "N/A")]),
+                    ],
+                ),
+                n("String", "E0", vec![t("Value", "")]),
+                n("String", "zz", vec![t("Value", "")]),
+                n("Integer", "Dev", vec![t("Value", "3"), t("Min", "3")]),
+                n("Float", "F", vec![t("Value", "1.5"), t("Max", "1.5")]),
+            ]),
+        ),
+        (
+            // an entry's Extension with nested vendor elements named like schema elements
+            "entry-extension-with-nested-schema-names",
+            rd(vec![xe(
+                "StructReg",
+                vec![],
+                vec![
+                    t("Visibility", "Guru"),
+                    t("IsDeprecated", "Yes"),
+                    t("ImposedAccessMode", "RO"),
+                    t("Streamable", "Yes"),
+                    t("Length", "4"),
+                    t("AccessMode", "RW"),
+                    t("pPort", "Dev"),
+                    t("Cachable", "NoCache"),
+                    n(
+                        "StructEntry",
+                        "A",
+                        vec![
+                            xe(
+                                "Extension",
+                                vec![("xmlns:vnd".to_string(), "urn:vendor:gui-hints".to_string())],
+                                vec![xe(
+                                    "vnd:GuiHints",
+                                    vec![],
+                                    vec![
+                                        t("vnd:Visibility", "Collapsed"),
+                                        t("vnd:IsDeprecated", "No"),
+                                        t("vnd:ImposedAccessMode", "RW"),
+                                        t("vnd:AccessMode", "RW"),
+                                        t("vnd:Cachable", "Never"),
+                                        t("vnd:Streamable", "No"),
+                                    ],
+                                )],
+                            ),
+                            t("Bit", "0"),
+                        ],
+                    ),
+                ],
+            )]),
+        ),
+        (
             "explicit-default-entry",
             rd(vec![xe(
                 "StructReg",
@@ -3448,6 +3801,11 @@ fn main() {
                 let res = run_impl(&xml, &looks, &[], &fpool);
                 rep.case(&xml, matches!(&res, Res::Ok(o) if !o.nodes.is_empty()));
                 debug_print(r["request"].as_str().unwrap_or(""), &res.answer(), &xml);
+                if let Res::Ok(o) = &res {
+                    for (sig, what) in &o.beh {
+                        viol(&mut rep, sig.clone(), what, r.clone());
+                    }
+                }
                 if let Some(req) = r["request"].as_str() {
                     rep.expect(req.to_string(), res.answer());
                 }
@@ -3466,6 +3824,13 @@ fn main() {
         rep.case(&format!("{:x}", fnv_bytes(FNV_INIT, xml.as_bytes())), matches!(&res, Res::Ok(o) if !o.nodes.is_empty()));
         rep.count(&format!("fixed:{name}:{}", outcome_key(&res)));
         debug_print(&request, &res.answer(), &xml);
+        if let Res::Ok(o) = &res {
+            for (sig, what) in &o.beh {
+                let mut sig = sig.clone();
+                sig["fixed_case"] = json!(name);
+                viol(&mut rep, sig, what, json!({"oracle": "", "xml": xml, "request": request, "looks": looks}));
+            }
+        }
         rep.expect(request, res.answer());
     }
     let (n_valid, n_mal) = if args.thorough() { (4000u64, 1500u64) } else { (400, 150) };
